@@ -113,7 +113,7 @@ def _raise(e):
 
 def parse(path):
     cp = configparser.ConfigParser()
-    with open(path) as f:
+    with open(path, encoding="utf-8") as f:
         cp.read_file(f)
     out = {}
     for s in cp.sections():
@@ -224,8 +224,9 @@ def write_ini(path, kv, annotated=False):
             out.append(line)
         out += ['', '[zz_notes]'] + [f'note_{k} = remember to ask the accountant about item {k} before filing' for k in range(40)]
         out += ['mailing = 12 Main St', '    Apt 4 (rear)', '    Durham: NC = 27701']      # a value over several lines
+        out += ['preparer = José Muñoz-Ångström, Zürich']                                         # text beyond ASCII
         out += ['bank = 5% Savings Bank (statement not received yet)', 'reminder = 100% of the refund goes to savings; see %(folder)s']
-        with open(path, 'w') as f:
+        with open(path, 'w', encoding='utf-8') as f:
             f.write('\n'.join(out) + '\n')
 
 
@@ -275,7 +276,11 @@ def one_fault(res, spec, year, forms, tmp, initial, full_answers, lookup, fault,
     p = scen.Persona(year, fam, key, overrides=full_answers)
 
     def a(name):
-        return p.answer(lookup.get(name))
+        t_ = p.answer(lookup.get(name))
+        inp_ = lookup.get(name)
+        if isinstance(fault[1], int) and fault[1] % 4 == 1 and type(inp_) is hx.inputs.StringInput and t_.strip():
+            t_ = t_ + ', Jr. & Co. ($5 fee)'        # free text is stored as typed: commas, dollar signs, ampersands
+        return t_
     a.lookup = lookup
     kind = fault[0]
     orig = F.TypedField.value
